@@ -88,7 +88,10 @@ class Tracer:
         self.trace.append(rec)
         f = self.fault
         if self.disk_full and name in ("write", "os.write", "sendfile", "copy_file_range", "mkdir", "os.open", "open"):
-            raise OSError(errno.ENOSPC, "No space left on device (injected: disk filled up)", path)
+            if self.disk_full is True or self.disk_full > 0:
+                if self.disk_full is not True:
+                    self.disk_full -= 1  # transient: somebody frees space after a moment
+                raise OSError(errno.ENOSPC, "No space left on device (injected: disk filled up)", path)
         if f.at == idx and not self.fired:
             self.fired = True
             if f.kind == "crash":
@@ -101,6 +104,12 @@ class Tracer:
                 raise OSError(errno.EIO, "Input/output error (injected)", path)
             if f.kind == "eio_after":
                 return "after"
+            if f.kind == "disk_full_transient":
+                # like disk_full, but space comes back after the next failing call
+                self.disk_full = 1
+                if name in ("write", "os.write"):
+                    return "short_ok"
+                raise OSError(errno.ENOSPC, "No space left on device (injected)", path)
             if f.kind == "disk_full":
                 # what the kernel does when the disk fills up in the middle of a write: it
                 # stores what fits and returns a short count WITHOUT an error; only later calls fail
@@ -402,6 +411,11 @@ def install(tracer):
     tempfile._name_sequence = _Names(t.name_seed)
     # the process id is one more source of nondeterminism (it ends up in scratch-file names)
     os.getpid = lambda: 4242
+    # no producer waits on the real clock (retry back-offs): blocking sleeps return at once
+    import time as _time
+    from . import kernel as _kernel
+    _kernel.SLEEP_IS_NOOP = True  # functions that captured time.sleep before this point (default arguments)
+    _time.sleep = lambda seconds: None
     if t.tmpdir:
         # a private TMPDIR per run (outside the watched directory): leftovers of killed runs
         # must not change the names later runs get
